@@ -608,6 +608,17 @@ def zoo(tier='quick'):
     economy(p, 'AR', 'AAD', gov='none', firm='fm0', make_country=True, free_xr=False)
     gift(p, 'AR.HH', 'BB.HH', name='REMIT')
     Z.append(p)
+    # a sector OUTSIDE a goods market's currency zone that carries a variable named like a demand for that market (a wish list in its own currency):
+    # the market sells inside its zone only, so the variable is inert (not part of total demand, no cash flow); a same-zone buyer in a region is counted
+    p = two_zone('xz_foreign_wishlist', dict(firm='multi'), {}, [lambda p: gift(p, 'AA.HH', 'BB.HH')])
+
+    def make_wish(c):
+        sec = Sector(c['BB'], c.nm('WISH'))
+        sec.AddVariable('DEM_%s_%s' % (c['AA'].Code, c['AA.GOOD'].Code), 'wish list (own currency)', '5.0')
+        sec.AddVariable('DEM_%s_%s' % (c['AA'].Code, c['AA.LAB'].Code), 'wish list (own currency)', '1.0')
+        return sec
+    p.decl('BB.WISH', make_wish, needs=('BB', 'AA.GOOD', 'AA.LAB'), group='BB')
+    Z.append(p)
     Z.append(two_zone('xz_gold_mixed', dict(gov='gold_gov', mm=True), dict(gov='cons', caps=True, firm='fm1'),
                       [G('AA.HH', 'BB.CAP'), G('BB.HH', 'AA.HH')]))
     # flows whose source / target are firms and governments (not only households), within and across zones
